@@ -292,16 +292,14 @@ Definition wrap_run (st : wcache) (input : list (text * list Z)) : outcome (list
     Val (fst x, {| wc_prev := Some input; wc_rem := snd x |})
   end.
 
-(* the front ends with the default nowrap=True:
-     rawdict = _psplatform...()
-     if not rawdict: return {} if per else None        <- before _wrap_numbers: the cache is not touched
-     rawdict = _wrap_numbers(rawdict, name) ; ... as [front] *)
+(* the front ends with the default nowrap=True (psutil/__init__.py as of the C10 repair):
+     with _nowrap_lock:
+         rawdict = _psplatform...()
+         rawdict = _wrap_numbers(rawdict, name)      <- also when nothing is listed
+     if not rawdict: return {} if per else None ; ... as [front] *)
 Definition front_wrap (fields : list bytes) (per : bool) (st : wcache) (raw : list (text * list Z))
   : outcome (front_res * wcache) :=
-  match raw with
-  | [] => Val (if per then RDict [] else RNone, st)
-  | _ => do x <- wrap_run st raw; do f <- front fields per (fst x); Val (f, snd x)
-  end.
+  do x <- wrap_run st raw; do f <- front fields per (fst x); Val (f, snd x).
 
 (* successive psutil.net_io_counters(pernic=per) calls, default nowrap, starting from cache state [st];
    a call that raises leaves the cache as it was (the platform call fails before _wrap_numbers;
